@@ -17,6 +17,6 @@ CONSTANTS
   MaxSteps = 1
   HostileSteps = 1
   AllScopes = FALSE
-  GenWhat = {"checkerops", "checkerlist", "selectlist", "selectops"}
+  GenWhat = {"checkerops", "checkerlist", "selectlist", "selectops", "listfail"}
   GenFull = FALSE
 CHECK_DEADLOCK FALSE
